@@ -1,4 +1,35 @@
-//! `cargo run --release -p <crate> --example run -- <runs>`: run the engine stand-alone.
+//! Stand-alone runner: `run [runs]` (default 200000). Exit code 1 if any violation or harness error was reported.
+#[global_allocator]
+static A: simcore::alloc::CountingAlloc = simcore::alloc::CountingAlloc;
+
 fn main() {
-    println!("engine not implemented yet");
+    // `run --determinism N`: execute N cases twice each and compare trace hash, verdict and counters
+    let args: Vec<String> = std::env::args().collect();
+    if args.get(1).map(|s| s.as_str()) == Some("--determinism") {
+        let n: u64 = args.get(2).and_then(|s| s.parse().ok()).unwrap_or(50_000);
+        let ctx = simcore::Ctx {
+            prop: "C16".into(),
+            tier: simcore::Tier::Quick,
+            root_seed: 1,
+            threads: 8,
+            known: Default::default(),
+            replay_dir: "/var/tmp/selftest-replays".into(),
+            started: std::time::Instant::now(),
+        };
+        let bad = simcore::engine::determinism_check(&ctx, &wakesim::WakeSim, n);
+        println!("determinism: {n} cases x2, {} differ", bad.len());
+        for (seed, what) in bad.iter().take(10) {
+            println!("  seed {seed}: {what}");
+        }
+        std::process::exit(if bad.is_empty() { 0 } else { 2 });
+    }
+    let runs: u64 = std::env::args().nth(1).and_then(|s| s.parse().ok()).unwrap_or(200_000);
+    println!("wakesim: {} enumerated interleavings, then seeded samples", wakesim::enumerated_total());
+    for (name, scenarios, count) in wakesim::enumerated_summary() {
+        println!("  enumerated {name}: {scenarios} scenarios, {count} interleavings");
+    }
+    let n = simcore::selftest::run(&wakesim::WakeSim, "C16", runs, simcore::Tier::Quick);
+    if n > 0 {
+        std::process::exit(1);
+    }
 }
